@@ -10,7 +10,7 @@
    kind 1804: flag state machine.  case = list of events: (0 CMD) --pre CMD | (1) --no-pre | (2) -z | (3) --no-search-zip
      result = (model_pre model_zip spec_pre spec_zip); pre = () | (CMD) *)
 From Coq Require Import List.
-From RG Require Import Base.Bytes Base.Val Model.CliTypes Gen.DecisionsCli Model.Process Model.PreZipFlags Spec.PreZipSpec.
+From RG Require Import Base.Bytes Base.Val Model.CliTypes Gen.DecisionsCli Model.Process Model.PreZipFlags Model.PreZipGen Spec.PreZipSpec.
 
 Definition bc_wants (want : nat) (_ : nat) : nat := want.
 Definition bc_step (limit : option nat) (n : nat) (b : bytes) : nat * bool :=
@@ -49,7 +49,7 @@ Definition dec_event (v : val) : pz_event :=
 
 Definition run_flags (v : val) : val :=
   let l := map dec_event (as_list v) in
-  let s := final_state l in
+  let s := gen_final_state l in       (* the rules regenerated from defs.rs *)
   VL [ of_option of_bytes (pz_pre s); of_bool (pz_zip s); of_option of_bytes (spec_pre l); of_bool (spec_zip l) ].
 
 Definition entry (k : N) (v : val) : option val :=
